@@ -68,4 +68,11 @@ theorem absK_eq_abs (a : ℝ) : absK a = |a| := by
   · rw [abs_of_neg h]
   · rw [abs_of_nonneg (le_of_not_gt h)]
 
+/-- `L` is a Lipschitz constant of the map `G` (C09: `G = ∇f`, `L = f.grad_lipschitz`). -/
+def LipOn (G : E → E) (L : ℝ) : Prop := ∀ x y, ‖G x - G y‖ ≤ L * ‖x - y‖
+
+omit [InnerProductSpace ℝ E] in
+theorem LipOn.mono {G : E → E} {L L' : ℝ} (h : LipOn G L) (hl : L ≤ L') : LipOn G L' :=
+  fun x y => (h x y).trans (mul_le_mul_of_nonneg_right hl (norm_nonneg _))
+
 end OdlModel.FunctionalsR
